@@ -20,12 +20,14 @@ use std::time::Instant;
 
 pub const BUILTINS: &[&str] = &["color-only", "diff-highlight", "diff-so-fancy", "hyperlinks", "line-numbers", "navigate", "raw", "side-by-side"];
 
-#[derive(Clone, Copy, Debug, PartialEq, Eq, Serialize, Deserialize)]
+#[derive(Clone, Copy, Debug, PartialEq, Eq)]
 pub enum PType {
     Str,
     Float,
     Int,
     Bool,
+    /// one of a fixed set of words
+    Enum(&'static [&'static str]),
 }
 
 pub struct Probe {
@@ -46,6 +48,9 @@ pub const PROBES: &[Probe] = &[
     Probe { name: "line-numbers-left-format", ty: PType::Str, builtin: &[("side-by-side", "'│{nm:^4}│'")], extra_args: &["--line-numbers"] },
     Probe { name: "diff-stat-align-width", ty: PType::Int, builtin: &[], extra_args: &[] },
     Probe { name: "file-renamed-label", ty: PType::Str, builtin: &[], extra_args: &[] },
+    // Option<String>, enumerations and a numeric option that is parsed from a string
+    Probe { name: "pager", ty: PType::Str, builtin: &[], extra_args: &[] },
+    Probe { name: "inspect-raw-lines", ty: PType::Enum(&["true", "false"]), builtin: &[], extra_args: &[] },
 ];
 
 #[derive(Clone, Debug, Default, Serialize, Deserialize, PartialEq)]
@@ -376,6 +381,7 @@ pub const SOURCE_KINDS: &[&str] = &[
     "repeat-mention-same-list",
     "repeat-mention-other-list",
     "repeat-mention-as-child",
+    "builtin-named-section-with-child",
 ];
 
 struct Builder<'a> {
@@ -393,11 +399,16 @@ impl<'a> Builder<'a> {
     }
     fn value(&mut self, rng: &mut Rng) -> String {
         self.n_val += 1;
+        // boundary values: zero is a meaningful setting for the numeric options
+        if matches!(self.probe.ty, PType::Float | PType::Int) && rng.chance(1, 5) {
+            return "0".to_string();
+        }
         match self.probe.ty {
             PType::Str => format!("V{}x{}", self.n_val, rng.below(90) + 10),
             PType::Float => format!("0.{}{}", self.n_val, rng.below(9) + 1),
             PType::Int => format!("{}{}", self.n_val, rng.below(9) + 1),
             PType::Bool => (if rng.chance(1, 2) { "true" } else { "false" }).to_string(),
+            PType::Enum(words) => rng.pick(words).to_string(),
         }
     }
     fn new_custom(&mut self) -> String {
@@ -561,6 +572,30 @@ impl<'a> Builder<'a> {
                         let which = (*rng.pick(&["cli", "env", "main"])).to_string();
                         self.insert_in_list(rng, &which, b);
                     }
+                }
+            }
+            "builtin-named-section-with-child" => {
+                // [delta "<builtin>"] is also a custom section: features it enables count, even when
+                // the builtin itself was already enabled at higher priority by something else
+                let b = (*rng.pick(&["line-numbers", "navigate", "raw", "hyperlinks", "diff-highlight"])).to_string();
+                if self.p.custom.contains_key(&b) {
+                    return false;
+                }
+                let child = self.new_custom();
+                let v = self.value(rng);
+                self.p.custom.insert(child.clone(), Section { value: Some(v), ..Default::default() });
+                self.p.custom.insert(b.clone(), Section { value: None, features: Some(vec![child]), flags: vec![] });
+                let which = (*rng.pick(&["cli", "env", "plusenv", "main"])).to_string();
+                self.insert_in_list(rng, &which, b.clone());
+                match rng.below(4) {
+                    0 if b == "line-numbers" => {
+                        // side-by-side enables line-numbers
+                        let w2 = (*rng.pick(&["cli", "env", "plusenv", "main"])).to_string();
+                        self.insert_in_list(rng, &w2, "side-by-side".to_string());
+                    }
+                    1 if !self.p.cli_flags.contains(&b) && self.p.cli_flags.len() < 2 => self.p.cli_flags.push(b),
+                    2 if !self.p.main.flags.contains(&b) && self.p.main.flags.len() < 2 => self.p.main.flags.push(b),
+                    _ => {}
                 }
             }
             "repeat-mention-same-list" | "repeat-mention-other-list" | "repeat-mention-as-child" => {
@@ -759,7 +794,8 @@ pub fn check_placement(env: &Env, ctx: &Ctx, p: &Placement, defaults: &BTreeMap<
     match &o0.shown {
         None => out.push(Violation::new("P0-shown", &format!("{}:not-shown", p.probe), format!("option {} not found in --show-config output", p.probe))),
         Some(v) => {
-            if !acc.contains(v) {
+            let numeric_match = probe.ty == PType::Float && v.parse::<f64>().ok().map(|x| acc.iter().any(|a| a.parse::<f64>().ok() == Some(x))).unwrap_or(false);
+            if !acc.contains(v) && !numeric_match {
                 let winner_kinds = p.sources.join("+");
                 out.push(Violation::new(
                     "P1-precedence",
@@ -989,7 +1025,7 @@ pub fn main_c13(env: &Env, tier: &str, seed: u64, replay: Option<&str>) -> i32 {
     }
     ev.evaluations = runs;
     ev.distinct_nontrivial = distinct.len() as u64;
-    ev.rule = "one evaluation = one `delta ... --show-config` execution of the real binary with a generated gitconfig/args/environment under one hash seed; a placement sets one probe option from 1-5 sources drawn from 21 source kinds; the lattice part enumerates every single kind and every unordered pair of kinds for each of 9 probe options (both construction orders) plus --no-gitconfig against every kind; the rest is seeded sampling. distinct_nontrivial counts distinct placements (every placement has at least one source, i.e. something for precedence to decide).".into();
+    ev.rule = "one evaluation = one `delta ... --show-config` execution of the real binary with a generated gitconfig/args/environment under one hash seed; a placement sets one probe option from 1-5 sources drawn from 22 source kinds; the lattice part enumerates every single kind and every unordered pair of kinds for each of 11 probe options (both construction orders) plus --no-gitconfig against every kind; the rest is seeded sampling. distinct_nontrivial counts distinct placements (every placement has at least one source, i.e. something for precedence to decide).".into();
     ev.counters.insert("placements".into(), placements.len() as u64);
     ev.counters.insert("lattice_placements".into(), n_lattice as u64);
     ev.counters.insert("hash_seeds_per_placement".into(), (hash_seeds.len() + 1) as u64);
